@@ -56,10 +56,11 @@ const (
 	opHTTPFallbackOK
 	opT2JMissingRequired
 	opKitexHeaderReuse
+	opHTTPSameRequestTwice
 	nOps
 )
 
-var opNames = []string{"t2j", "j2t", "t2j-http", "t2j-truncated", "j2t-malformed", "dom-load-marshal", "cut", "get-by-path", "lookup", "p2j-j2p", "j2p-malformed", "p2j-truncated", "j2t-http", "proto-generic", "http-empty-body", "http-fallback-rejected", "http-fallback-valid", "t2j-missing-required", "t2j-kitex-headers-then-buffer-reuse"}
+var opNames = []string{"t2j", "j2t", "t2j-http", "t2j-truncated", "j2t-malformed", "dom-load-marshal", "cut", "get-by-path", "lookup", "p2j-j2p", "j2p-malformed", "p2j-truncated", "j2t-http", "proto-generic", "http-empty-body", "http-fallback-rejected", "http-fallback-valid", "t2j-missing-required", "t2j-kitex-headers-then-buffer-reuse", "http-same-request-twice"}
 
 type Op struct {
 	Kind int `json:"k"`
@@ -85,6 +86,7 @@ struct HReq {
 	1: required string Name (api.query = "name")
 	2: optional i32 Num (api.header = "num")
 	3: Inner In
+	4: optional string Bod (api.body = "bod")
 }
 struct HResp {
 	1: required string Must
@@ -110,6 +112,7 @@ type httpFixture struct {
 	kresp       *thrift.TypeDescriptor
 	kitex       t2j.BinaryConv // EnableHttpMapping + UseKitexHttpEncoding
 	kmsg        []byte         // KResp{Tags:["tag-one"], Msg:"m", More:["a","b"], One:"one"}
+	wantBody    []byte         // {1:"n",4:"hello"}
 }
 
 func newHTTPFixture() (*httpFixture, error) {
@@ -134,6 +137,7 @@ func newHTTPFixture() (*httpFixture, error) {
 		return l
 	}
 	h.kmsg = tm.Encode(&tm.Value{K: tm.STRUCT, Fields: []tm.FieldVal{{ID: 1, V: strs("tag-one")}, {ID: 2, V: str("m")}, {ID: 3, V: strs("a", "b")}, {ID: 4, V: str("one")}}})
+	h.wantBody = tm.Encode(&tm.Value{K: tm.STRUCT, Fields: []tm.FieldVal{{ID: 1, V: str("n")}, {ID: 4, V: str("hello")}}})
 	h.respMissing = tm.Encode(&tm.Value{K: tm.STRUCT, Fields: []tm.FieldVal{{ID: 3, V: &tm.Value{K: tm.STRUCT, Fields: []tm.FieldVal{{ID: 1, V: str("x")}}}}}})
 	return h, nil
 }
@@ -433,6 +437,22 @@ func (e *env) run(op Op, keep *[]held) (msg string) {
 		if out, err := e.tj.Do(ctx, e.hfix.resp, in); err == nil {
 			return fmt.Sprintf("t2j accepts a message whose outer struct lacks a required field: %s", out)
 		}
+	case opHTTPSameRequestTwice:
+		// one request object serves two conversions (a retry): both must give what a single one gives
+		body := `{"bod":"hello"}`
+		hctx, herr := httpCtx("POST", "http://example.com/call?name=n", body)
+		if herr != nil {
+			return "harness: " + herr.Error()
+		}
+		for round := 0; round < 2; round++ {
+			out, err := e.hfix.plain.Do(hctx, e.hfix.req, []byte(body))
+			if err != nil {
+				return fmt.Sprintf("round %d on the same request object fails: %v", round, err)
+			}
+			if !bytes.Equal(out, e.hfix.wantBody) {
+				return fmt.Sprintf("round %d on the same request object: output %x, want %x", round, out, e.hfix.wantBody)
+			}
+		}
 	case opKitexHeaderReuse:
 		// the caller converts out of its own receive buffer and then reuses that buffer: what was delivered to the
 		// response (NoCopyString is off) must stay what it was
@@ -618,7 +638,7 @@ func check(c *pbt.Ctx, cs Case) {
 
 var Prop = pbt.Register(pbt.Prop[Case]{
 	Name: "TestSharedUse",
-	Rule: "generated Thrift descriptor + conforming message + JSON document, generated proto3 schema + message, and a drawn history: 1..8 goroutines, each with a drawn list of operations (t2j, j2t, t2j HTTPConv.Do, j2t HTTPConv.Do, proto DOM Load+Marshal, t2j on a truncated message, j2t on a truncated document, DOM Load+Marshal, MarshalTo, GetByPath, descriptor lookups, p2j+j2p, j2p on malformed documents incl. ones that fail while an unknown root member is skipped, p2j on a truncated message; on a fixed annotated service: an empty-body GET whose required field comes from the query, a request rejected because a required field has no source under ReadHttpValueFallback+Traceback, a complete request under the same options, t2j of a response whose outer struct lacks a required field while holding a nested struct, t2j with Kitex http encoding delivering header values out of a buffer the caller then overwrites) sharing descriptors, converter objects and read-only inputs, in a -race binary; every successful operation is checked against the reference oracles (reference encoder, strict JSON reader, protobuf-go), failing inputs must fail, every result handed out is compared with its copy after all goroutines finished, inputs and descriptor dump must be unchanged; a data race reported by the race detector is a violation; non-trivial = >= 2 goroutines and >= 6 operations",
+	Rule: "generated Thrift descriptor + conforming message + JSON document, generated proto3 schema + message, and a drawn history: 1..8 goroutines, each with a drawn list of operations (t2j, j2t, t2j HTTPConv.Do, j2t HTTPConv.Do, proto DOM Load+Marshal, t2j on a truncated message, j2t on a truncated document, DOM Load+Marshal, MarshalTo, GetByPath, descriptor lookups, p2j+j2p, j2p on malformed documents incl. ones that fail while an unknown root member is skipped, p2j on a truncated message; on a fixed annotated service: an empty-body GET whose required field comes from the query, a request rejected because a required field has no source under ReadHttpValueFallback+Traceback, a complete request under the same options, t2j of a response whose outer struct lacks a required field while holding a nested struct, one request object converted twice (an api.body string member), t2j with Kitex http encoding delivering header values out of a buffer the caller then overwrites) sharing descriptors, converter objects and read-only inputs, in a -race binary; every successful operation is checked against the reference oracles (reference encoder, strict JSON reader, protobuf-go), failing inputs must fail, every result handed out is compared with its copy after all goroutines finished, inputs and descriptor dump must be unchanged; a data race reported by the race detector is a violation; non-trivial = >= 2 goroutines and >= 6 operations",
 	Gen: func(t *rapid.T) Case {
 		cfg := tm.GenCfg{MaxDepth: 2, KeyKinds: tjson.SupportedKeys, Reqs: true, Aliases: true, ValidUTF8: true, FiniteDoubles: true, RootStruct: true, WireOrder: true, MaxWidth: 4}
 		u := tm.GenUniverse(t, cfg)
